@@ -610,6 +610,22 @@ func family(class string) string {
 	return class
 }
 
+// minMemo caches oracle results of the (small) trees visited while failing
+// cases are minimised; the minimal spelling identifies the tree.
+var minMemo sync.Map
+
+func evalMemo(t *Node, names []string, cx *ctxDef) caseResult {
+	k := cx.ID + "\x00" + render(t, false, cx.Colon)
+	if v, ok := minMemo.Load(k); ok {
+		return v.(caseResult)
+	}
+	r := evalCase(t, names, cx)
+	if !r.unstable && !r.interrupted {
+		minMemo.Store(k, r)
+	}
+	return r
+}
+
 func minimise(t *Node, cx *ctxDef, fam string) (*Node, *ctxDef, caseResult) {
 	cur := t.clone()
 	names := nameLeaves(cur)
@@ -618,7 +634,7 @@ func minimise(t *Node, cx *ctxDef, fam string) (*Node, *ctxDef, caseResult) {
 		changed := false
 		for _, c := range candidates(cur) {
 			cn := nameLeaves(c)
-			r := evalCase(c, cn, cx)
+			r := evalMemo(c, cn, cx)
 			if !r.skipped && r.class != "" && family(r.class) == fam {
 				cur, res, changed = c, r, true
 				break
@@ -630,7 +646,7 @@ func minimise(t *Node, cx *ctxDef, fam string) (*Node, *ctxDef, caseResult) {
 	}
 	if cx.ID != "E" {
 		e := ctxByID("E")
-		r := evalCase(cur, nameLeaves(cur), e)
+		r := evalMemo(cur, nameLeaves(cur), e)
 		if r.class != "" && family(r.class) == fam {
 			// re-minimise in the plain position
 			return minimise(cur, e, fam)
